@@ -125,10 +125,12 @@ def clutArg : Option Val → R Bytes
     width, height and depth; both registration offsets are integers) -/
 def bitdInDomain (width height : Int) : Bool := decide (0 ≤ width) && decide (0 ≤ height)
 
-/-- bitd2bmp(castData, clutData, fdata): the reads of `castData` in Python's order, then the decoder for the depth.
+/-- bitd2bmp(castData, clutData, fdata): the reads of `castData` in Python's order, then the decoder for the depth (`dec`, a
+    parameter only so that the DRIVER can substitute the array-based twin of lean/Drx/BitdFast.lean for large images; the model the
+    theorems talk about is `bitdReal`, with the list model `Bitd.bitd2bmpI`).
     Outside `bitdInDomain` (a negative width or height in the member record) the bitmap model has no
     counterpart: `Err.notImpl` (the harness does not compare such movies; none is produced by any encoder). -/
-def bitdReal (cd : Dir.CastData) (clut : Option Val) (d : Bytes) : R J := do
+def bitdRealWith (dec : Bitd.Request → R Bytes) (cd : Dir.CastData) (clut : Option Val) (d : Bytes) : R J := do
   let height ← castInt cd "height"
   let width ← castInt cd "width"
   let depth ← castInt cd "depth"
@@ -139,9 +141,11 @@ def bitdReal (cd : Dir.CastData) (clut : Option Val) (d : Bytes) : R J := do
   if depth < 0 ∨ (Bitd.lookupN depth.toNat Gen.BitdTables.decoders).isNone then .error .value else
   if !bitdInDomain width height then .error .notImpl else
   let clutB ← clutArg clut
-  let bmp ← Bitd.bitd2bmpI { depth := depth.toNat, width := width.toNat, height := height.toNat, padW := padW, padH := padH,
-                             palette := palette, clut := clutB, fdata := d }
+  let bmp ← dec { depth := depth.toNat, width := width.toNat, height := height.toNat, padW := padW, padH := padH,
+                  palette := palette, clut := clutB, fdata := d }
   .ok (bytesJ bmp)
+
+def bitdReal : Dir.CastData → Option Val → Bytes → R J := bitdRealWith Bitd.bitd2bmpI
 
 /-- parse_lrcr_file_data(chunk, name_list); generate_lingo_code(lscr); generate_js_code(lscr) — the second generator runs on
     the tree the first one left behind -/
